@@ -1,8 +1,460 @@
-//! Drivers for the container / item / graph / topology / generator APIs (filled in per property).
+//! Drivers for the container / item / graph / topology / generator APIs.
+//! Case:  {"id":..,"api":"stack"|"buffer"|"graph"|"topo"|"item"|"gen", ...}
+//! Every operation becomes one event {"id","i","act":{"a":<api>,"m":<method>,"args":[..]},"ret":RET,"post":STATE}
+//! (the first event also carries "pre"). RET is a record {"t":"some"|"none"|"ok"|"err"|"unit"|"val","v":..}.
 
+use crate::conv::*;
+use crate::exec::panic_msg;
+use pushr::push::buffer::PushBuffer;
+use pushr::push::graph::Graph;
+use pushr::push::instructions::InstructionCache;
+use pushr::push::item::Item;
+use pushr::push::random::CodeGenerator;
+use pushr::push::stack::PushStack;
+use pushr::push::state::PushState;
+use pushr::push::topology::Topology;
 use serde_json::{json, Value};
 use std::io::Write;
+use std::panic::{catch_unwind, AssertUnwindSafe};
+
+fn some(v: Value) -> Value {
+    json!({"t": "some", "v": v})
+}
+fn none() -> Value {
+    json!({"t": "none", "v": 0})
+}
+fn unit() -> Value {
+    json!({"t": "unit", "v": 0})
+}
+fn val(v: Value) -> Value {
+    json!({"t": "val", "v": v})
+}
+fn opt<T, F: Fn(T) -> Value>(o: Option<T>, f: F) -> Value {
+    match o {
+        Some(x) => some(f(x)),
+        None => none(),
+    }
+}
+fn us(v: &Value) -> usize {
+    v.as_u64().unwrap_or(0) as usize
+}
+
+// ------------------------------------------------------------------------------------------------
+// PushStack<i32> and PushStack<Item>
+
+trait Elem: Clone + std::fmt::Display + PartialEq + pushr::push::stack::PushPrint {
+    fn from_j(v: &Value) -> Self;
+    fn to_j(&self) -> Value;
+}
+impl Elem for i32 {
+    fn from_j(v: &Value) -> Self {
+        v.as_i64().unwrap() as i32
+    }
+    fn to_j(&self) -> Value {
+        json!(self)
+    }
+}
+impl Elem for Item {
+    fn from_j(v: &Value) -> Self {
+        j2item(v)
+    }
+    fn to_j(&self) -> Value {
+        item2j(self)
+    }
+}
+
+fn stack_contents<T: Elem>(s: &PushStack<T>) -> Value {
+    json!({"s": (0..s.size()).map(|i| s.get(i).unwrap().to_j()).collect::<Vec<_>>()})
+}
+
+fn stack_op<T: Elem>(s: &mut PushStack<T>, m: &str, a: &[Value]) -> Value {
+    match m {
+        "to_string" => val(json!(s.to_string())),
+        "size" => val(json!(s.size())),
+        "last_eq" => val(json!(s.last_eq(&T::from_j(&a[0])))),
+        "equal_at" => opt(s.equal_at(us(&a[0]), &T::from_j(&a[1])), |b| json!(b)),
+        "bottom_mut" => opt(s.bottom_mut().map(|x| x.clone()), |x| x.to_j()),
+        "flush" => {
+            s.flush();
+            unit()
+        }
+        "replace" => match s.replace(us(&a[0]), T::from_j(&a[1])) {
+            Ok(()) => json!({"t": "ok", "v": 0}),
+            Err(k) => json!({"t": "err", "v": k}),
+        },
+        "remove" => {
+            s.remove(us(&a[0]));
+            unit()
+        }
+        "reverse" => {
+            s.reverse();
+            unit()
+        }
+        "get_mut" => opt(s.get_mut(us(&a[0])).map(|x| x.clone()), |x| x.to_j()),
+        "get" => opt(s.get(us(&a[0])).cloned(), |x| x.to_j()),
+        "push" => {
+            s.push(T::from_j(&a[0]));
+            unit()
+        }
+        "push_front" => {
+            s.push_front(T::from_j(&a[0]));
+            unit()
+        }
+        "yank" => {
+            s.yank(us(&a[0]));
+            unit()
+        }
+        "shove" => {
+            s.shove(us(&a[0]));
+            unit()
+        }
+        "pop_front" => opt(s.pop_front(), |x| x.to_j()),
+        "pop" => opt(s.pop(), |x| x.to_j()),
+        "pop_vec" => opt(s.pop_vec(us(&a[0])), |v| json!(v.iter().map(|x| x.to_j()).collect::<Vec<_>>())),
+        "copy" => opt(s.copy(us(&a[0])), |x| x.to_j()),
+        "copy_vec" => opt(s.copy_vec(us(&a[0])), |v| json!(v.iter().map(|x| x.to_j()).collect::<Vec<_>>())),
+        "push_vec" => {
+            s.push_vec(a[0].as_array().unwrap().iter().map(T::from_j).collect());
+            unit()
+        }
+        "from_vec" => {
+            *s = PushStack::from_vec(a[0].as_array().unwrap().iter().map(T::from_j).collect());
+            unit()
+        }
+        "clone" => {
+            let c = s.clone();
+            val(stack_contents(&c)["s"].clone())
+        }
+        _ => json!({"t": "harness", "v": "unknown method"}),
+    }
+}
+
+fn run_stack<T: Elem>(case: &Value, out: &mut dyn Write) {
+    let mut s: PushStack<T> = vec2stack(&case["init"], T::from_j);
+    let mut first = Some(stack_contents(&s));
+    for (i, op) in case["ops"].as_array().unwrap().iter().enumerate() {
+        let m = op["m"].as_str().unwrap().to_string();
+        let args = op["args"].as_array().cloned().unwrap_or_default();
+        let r = catch_unwind(AssertUnwindSafe(|| stack_op(&mut s, &m, &args)));
+        let mut ev = json!({"id": case["id"], "i": i, "act": {"a": "stack", "m": m, "args": args, "elem": case["elem"]}});
+        if let Some(p) = first.take() {
+            ev["pre"] = p;
+        }
+        match r {
+            Ok(ret) => {
+                ev["ret"] = ret;
+                ev["post"] = stack_contents(&s);
+                writeln!(out, "{}", ev).unwrap();
+            }
+            Err(e) => {
+                ev["post"] = json!({"crash": "panic", "msg": panic_msg(e)});
+                writeln!(out, "{}", ev).unwrap();
+                return;
+            }
+        }
+    }
+}
+
+// ------------------------------------------------------------------------------------------------
+// PushBuffer<i32>: abstract observations plus the cursors read from the Debug output
+
+fn debug_field(dbg: &str, name: &str) -> i64 {
+    let key = format!("{}: ", name);
+    let i = dbg.find(&key).map(|p| p + key.len()).unwrap_or(0);
+    dbg[i..].chars().take_while(|c| c.is_ascii_digit()).collect::<String>().parse().unwrap_or(-1)
+}
+fn debug_container(dbg: &str) -> Vec<i64> {
+    let key = "container: [";
+    let i = dbg.find(key).map(|p| p + key.len()).unwrap_or(0);
+    let j = dbg[i..].find(']').map(|p| p + i).unwrap_or(i);
+    dbg[i..j].split(',').filter_map(|t| t.trim().parse().ok()).collect()
+}
+fn buffer_state(b: &PushBuffer<i32>) -> Value {
+    let dbg = format!("{:?}", b);
+    json!({"cap": b.capacity(), "start": debug_field(&dbg, "start"), "end": debug_field(&dbg, "end"),
+           "len": debug_field(&dbg, "len"), "cells": debug_container(&dbg)})
+}
+fn buffer_op(b: &mut PushBuffer<i32>, m: &str, a: &[Value]) -> Value {
+    match m {
+        "capacity" => val(json!(b.capacity())),
+        "size" => val(json!(b.size())),
+        "to_string" => val(json!(b.to_string())),
+        "copy" => opt(b.copy(us(&a[0])), |x| json!(x)),
+        "copy_oldest" => opt(b.copy_oldest(), |x| json!(x)),
+        "flush" => {
+            b.flush();
+            unit()
+        }
+        "get" => opt(b.get(us(&a[0])).copied(), |x| json!(x)),
+        "get_mut" => opt(b.get_mut(us(&a[0])).map(|x| *x), |x| json!(x)),
+        "is_empty" => val(json!(b.is_empty())),
+        "is_full" => val(json!(b.is_full())),
+        "push" => {
+            b.push(a[0].as_i64().unwrap() as i32);
+            unit()
+        }
+        "push_force" => {
+            b.push_force(a[0].as_i64().unwrap() as i32);
+            unit()
+        }
+        "pop" => opt(b.pop(), |x| json!(x)),
+        "peek_oldest" => opt(b.peek_oldest().copied(), |x| json!(x)),
+        "peek_newest" => opt(b.peek_newest().copied(), |x| json!(x)),
+        "iter" => val(json!(b.iter().copied().collect::<Vec<i32>>())),
+        "iter_len" => val(json!(b.iter().len())),
+        _ => json!({"t": "harness", "v": "unknown method"}),
+    }
+}
+fn run_buffer(case: &Value, out: &mut dyn Write) {
+    let kind = case["kind"].as_str().unwrap().to_string();
+    let mut b: PushBuffer<i32> = new_buffer(&kind, us(&case["cap"]));
+    let mut first = Some(buffer_state(&b));
+    for (i, op) in case["ops"].as_array().unwrap().iter().enumerate() {
+        let m = op["m"].as_str().unwrap().to_string();
+        let args = op["args"].as_array().cloned().unwrap_or_default();
+        let r = catch_unwind(AssertUnwindSafe(|| buffer_op(&mut b, &m, &args)));
+        let mut ev = json!({"id": case["id"], "i": i, "act": {"a": "buffer", "m": m, "args": args, "kind": kind}});
+        if let Some(p) = first.take() {
+            ev["pre"] = p;
+        }
+        match r {
+            Ok(ret) => {
+                ev["ret"] = ret;
+                ev["post"] = buffer_state(&b);
+                writeln!(out, "{}", ev).unwrap();
+            }
+            Err(e) => {
+                ev["post"] = json!({"crash": "panic", "msg": panic_msg(e)});
+                writeln!(out, "{}", ev).unwrap();
+                return;
+            }
+        }
+    }
+}
+
+// ------------------------------------------------------------------------------------------------
+// Graph API: a list of graphs (index 0 = the working graph, further entries = snapshots taken by clone)
+
+fn graphs_state(gs: &[Graph]) -> Value {
+    json!({"gs": gs.iter().map(graph2j).collect::<Vec<_>>(),
+           "nid": clamp_i32(pushr::push::graph::verif_node_counter() as u128)})
+}
+fn sorted_i32(mut v: Vec<i32>) -> Vec<i32> {
+    v.sort();
+    v
+}
+fn graph_op(gs: &mut Vec<Graph>, m: &str, a: &[Value]) -> Value {
+    let f = |v: &Value| j2f(v);
+    match m {
+        "add_node" => val(json!(gs[0].add_node(a[0].as_i64().unwrap() as i32))),
+        "remove_node" => {
+            gs[0].remove_node(us(&a[0]));
+            unit()
+        }
+        "add_edge" => {
+            gs[0].add_edge(us(&a[0]), us(&a[1]), f(&a[2]));
+            unit()
+        }
+        "remove_edge" => {
+            gs[0].remove_edge(us(&a[0]), us(&a[1]));
+            unit()
+        }
+        "get_state" => opt(gs[0].get_state(&us(&a[0])), |x| json!(x)),
+        "set_state" => {
+            gs[0].set_state(&us(&a[0]), a[1].as_i64().unwrap() as i32);
+            unit()
+        }
+        "get_weight" => opt(gs[0].get_weight(&us(&a[0]), &us(&a[1])), f2j),
+        "set_weight" => {
+            gs[0].set_weight(&us(&a[0]), &us(&a[1]), f(&a[2]));
+            unit()
+        }
+        "node_size" => val(json!(gs[0].node_size())),
+        "edge_size" => val(json!(gs[0].edge_size())),
+        "filter" => {
+            let st: Vec<i32> = a[0].as_array().unwrap().iter().map(|x| x.as_i64().unwrap() as i32).collect();
+            val(json!(sorted_i32(gs[0].filter(&st))))
+        }
+        // snapshot: a clone is inserted behind the working graph
+        "clone" => {
+            let c = gs[0].clone();
+            gs.insert(1, c);
+            unit()
+        }
+        // diff(snapshot k, working graph): is a textual difference reported?
+        "diff" => {
+            let k = us(&a[0]);
+            if k < gs.len() {
+                val(json!(gs[k].diff(&gs[0]).is_some()))
+            } else {
+                none()
+            }
+        }
+        "eq" => {
+            let k = us(&a[0]);
+            if k < gs.len() {
+                val(json!(gs[k] == gs[0]))
+            } else {
+                none()
+            }
+        }
+        _ => json!({"t": "harness", "v": "unknown method"}),
+    }
+}
+fn run_graph(case: &Value, out: &mut dyn Write) {
+    if let Some(n) = case.get("nid").and_then(|n| n.as_u64()) {
+        pushr::push::graph::verif_set_node_counter(n as usize);
+    }
+    let mut gs: Vec<Graph> = vec![Graph::new()];
+    let mut first = Some(graphs_state(&gs));
+    for (i, op) in case["ops"].as_array().unwrap().iter().enumerate() {
+        let m = op["m"].as_str().unwrap().to_string();
+        let args = op["args"].as_array().cloned().unwrap_or_default();
+        let r = catch_unwind(AssertUnwindSafe(|| graph_op(&mut gs, &m, &args)));
+        let mut ev = json!({"id": case["id"], "i": i, "act": {"a": "graph", "m": m, "args": args}});
+        if let Some(p) = first.take() {
+            ev["pre"] = p;
+        }
+        match r {
+            Ok(ret) => {
+                ev["ret"] = ret;
+                ev["post"] = graphs_state(&gs);
+                writeln!(out, "{}", ev).unwrap();
+            }
+            Err(e) => {
+                ev["post"] = json!({"crash": "panic", "msg": panic_msg(e)});
+                writeln!(out, "{}", ev).unwrap();
+                return;
+            }
+        }
+    }
+}
+
+// ------------------------------------------------------------------------------------------------
+// stateless calls: topology, item functions, generators. One event per call; "post" is a dummy.
+
+fn run_calls(case: &Value, out: &mut dyn Write) {
+    let api = case["api"].as_str().unwrap().to_string();
+    for (i, op) in case["ops"].as_array().unwrap().iter().enumerate() {
+        let m = op["m"].as_str().unwrap().to_string();
+        let a = op["args"].as_array().cloned().unwrap_or_default();
+        let st = case.get("state").cloned();
+        let r = catch_unwind(AssertUnwindSafe(|| match api.as_str() {
+            "topo" => topo_call(&m, &a),
+            "item" => item_call(&m, &a),
+            "gen" => gen_call(&m, &a, st.as_ref()),
+            _ => json!({"t": "harness", "v": "unknown api"}),
+        }));
+        let mut ev = json!({"id": case["id"], "i": i, "act": {"a": api, "m": m, "args": a}, "pre": {"none": 0}});
+        match r {
+            Ok(ret) => {
+                ev["ret"] = ret;
+                ev["post"] = json!({"none": 0});
+            }
+            Err(e) => {
+                ev["post"] = json!({"crash": "panic", "msg": panic_msg(e)});
+            }
+        }
+        writeln!(out, "{}", ev).unwrap();
+    }
+}
+
+fn topo_call(m: &str, a: &[Value]) -> Value {
+    match m {
+        "find_neighbors" => opt(
+            Topology::find_neighbors(&us(&a[0]), &us(&a[1]), &us(&a[2]), &j2f(&a[3])),
+            |v| json!(v.values),
+        ),
+        "decompose_index" => opt(Topology::decompose_index(&us(&a[0]), &us(&a[1]), &us(&a[2])), |v| json!(v)),
+        "euclidean_distance" => {
+            let x: Vec<usize> = a[0].as_array().unwrap().iter().map(us).collect();
+            let y: Vec<usize> = a[1].as_array().unwrap().iter().map(us).collect();
+            opt(Topology::euclidean_distance(&x, &y), f2j)
+        }
+        _ => json!({"t": "harness", "v": "unknown method"}),
+    }
+}
+
+fn item_call(m: &str, a: &[Value]) -> Value {
+    match m {
+        "size" => val(json!(Item::size(&j2item(&a[0])))),
+        "shallow_size" => val(json!(Item::shallow_size(&j2item(&a[0])))),
+        "traverse" => match Item::traverse(&j2item(&a[0]), us(&a[1])) {
+            Ok(it) => some(item2j(&it)),
+            Err(_) => none(),
+        },
+        "insert" => {
+            let mut it = j2item(&a[0]);
+            let r = Item::insert(&mut it, &j2item(&a[1]), us(&a[2]));
+            // the whole-item case (index 0) is completed the way CODE.INSERT does
+            let res = if r == Ok(true) { j2item(&a[1]) } else { it };
+            json!({"t": if r.is_ok() { "some" } else { "none" }, "v": item2j(&res)})
+        }
+        "contains" => match Item::contains(&j2item(&a[0]), &j2item(&a[1]), 0) {
+            Ok(p) => val(json!(p)),
+            Err(()) => val(json!(-1)),
+        },
+        "container" => match Item::container(&j2item(&a[0]), &j2item(&a[1])) {
+            Ok(it) => some(item2j(&it)),
+            Err(_) => none(),
+        },
+        "substitute" => {
+            let mut it = j2item(&a[0]);
+            let whole = Item::substitute(&mut it, &j2item(&a[1]), &j2item(&a[2]));
+            val(item2j(&if whole { j2item(&a[2]) } else { it }))
+        }
+        "equals" => val(json!(Item::equals(&j2item(&a[0]), &j2item(&a[1])))),
+        "shallow_eq" => val(json!(j2item(&a[0]) == j2item(&a[1]))),
+        "to_string" => val(json!(j2item(&a[0]).to_string())),
+        _ => json!({"t": "harness", "v": "unknown method"}),
+    }
+}
+
+fn gen_call(m: &str, a: &[Value], st: Option<&Value>) -> Value {
+    let state: PushState = match st {
+        Some(s) => build(s),
+        None => PushState::new(),
+    };
+    let cache = |v: &Value| InstructionCache::new(v.as_array().unwrap().iter().map(|x| x.as_str().unwrap().to_string()).collect());
+    match m {
+        "random_code" => opt(CodeGenerator::random_code(&state, &cache(&a[0]), us(&a[1])), |it| item2j(&it)),
+        "random_code_with_size" => some(item2j(&CodeGenerator::random_code_with_size(&state, &cache(&a[0]), us(&a[1])))),
+        "decompose" => {
+            let mut v = vec![];
+            CodeGenerator::decompose(&mut v, us(&a[0]));
+            some(json!(v))
+        }
+        "random_bool_vector" => opt(CodeGenerator::random_bool_vector(a[0].as_i64().unwrap() as i32, j2f(&a[1])), |v| json!(v.values)),
+        "random_int_vector" => opt(
+            CodeGenerator::random_int_vector(a[0].as_i64().unwrap() as i32, a[1].as_i64().unwrap() as i32, a[2].as_i64().unwrap() as i32),
+            |v| json!(v.values),
+        ),
+        "random_float_vector" => opt(
+            CodeGenerator::random_float_vector(a[0].as_i64().unwrap() as i32, j2f(&a[1]), j2f(&a[2])),
+            |v| json!(v.values.iter().map(|f| f2j(*f)).collect::<Vec<_>>()),
+        ),
+        "random_float" => opt(CodeGenerator::random_float(&state), f2j),
+        "random_integer" => opt(CodeGenerator::random_integer(&state), |x| json!(x)),
+        "existing_random_name" => some(json!(CodeGenerator::existing_random_name(&state))),
+        "new_random_name" => some(json!(CodeGenerator::new_random_name())),
+        _ => json!({"t": "harness", "v": "unknown method"}),
+    }
+}
 
 pub fn run_api_case(case: &Value, out: &mut dyn Write) {
-    writeln!(out, "{}", json!({"id": case["id"], "i": 0, "act": case["api"], "post": {"crash": "harness", "msg": "api not implemented"}})).unwrap();
+    match case["api"].as_str().unwrap_or("") {
+        "stack" => {
+            if case["elem"].as_str() == Some("item") {
+                run_stack::<Item>(case, out)
+            } else {
+                run_stack::<i32>(case, out)
+            }
+        }
+        "buffer" => run_buffer(case, out),
+        "graph" => run_graph(case, out),
+        "topo" | "item" | "gen" => run_calls(case, out),
+        _ => {
+            writeln!(out, "{}", json!({"id": case["id"], "i": 0, "act": {"a": "unknown-api"}, "post": {"crash": "harness", "msg": "unknown api"}})).unwrap();
+        }
+    }
 }
